@@ -87,9 +87,34 @@ def expand(h):
 # ---------------------------------------------------------------------------
 # single step
 # ---------------------------------------------------------------------------
+class RegReads:
+    """a read-only register file as explicit Ackermann variables: every read gets a fresh
+    32-bit variable; constraints() states that equal indices read equal values"""
+
+    def __init__(self, prefix):
+        self.prefix = prefix
+        self.reads = []
+
+    def __call__(self, idx):
+        idx = z3.simplify(idx)
+        for i, v in self.reads:
+            if i.eq(idx):
+                return v
+        v = z3.BitVec('%s_%d' % (self.prefix, len(self.reads)), 32)
+        self.reads.append((idx, v))
+        return v
+
+    def constraints(self):
+        cs = []
+        for a in range(len(self.reads)):
+            for b in range(a + 1, len(self.reads)):
+                cs.append(z3.Implies(self.reads[a][0] == self.reads[b][0], self.reads[a][1] == self.reads[b][1]))
+        return z3.And(*cs) if cs else z3.BoolVal(True)
+
+
 def rd_(regs, i):
-    """x0 reads 0. regs: z3 array, or an uninterpreted function when it is only read"""
-    v = regs(i) if isinstance(regs, z3.FuncDeclRef) else z3.Select(regs, i)
+    """x0 reads 0. regs: z3 array, or an uninterpreted function / RegReads when it is only read"""
+    v = regs(i) if isinstance(regs, (z3.FuncDeclRef, RegReads)) else z3.Select(regs, i)
     return z3.If(i == 0, BV(0, 32), v)
 
 
@@ -101,8 +126,10 @@ class Effect:
 
 def step(w, regs, pc, ilen):
     """w: BV32 instruction word. Returns Effect with z3 fields."""
-    opc = X(w, 6, 0)
-    rd, f3, rs1, rs2, f7 = X(w, 11, 7), X(w, 14, 12), X(w, 19, 15), X(w, 24, 20), X(w, 31, 25)
+    w = z3.simplify(w)
+    S = z3.simplify
+    opc = S(X(w, 6, 0))
+    rd, f3, rs1, rs2, f7 = S(X(w, 11, 7)), S(X(w, 14, 12)), S(X(w, 19, 15)), S(X(w, 24, 20)), S(X(w, 31, 25))
     immI = sext(X(w, 31, 20))
     immS = sext(z3.Concat(X(w, 31, 25), X(w, 11, 7)))
     immB = sext(z3.Concat(X(w, 31, 31), X(w, 7, 7), X(w, 30, 25), X(w, 11, 8), BV(0, 1)))
@@ -196,12 +223,12 @@ def same_effect(e1, e2):
     """z3 Bool: the two instructions (executed at the same pc from the same register file,
     each with its own length) have the same architectural effect; a link value is
     'address of the next instruction' for both."""
-    return z3.And(
+    return z3.simplify(z3.And(
         e1.opaque == e2.opaque, e1.opq_word == e2.opq_word,
         e1.wr_en == e2.wr_en, e1.wr_idx == e2.wr_idx, e1.wr_link == e2.wr_link, e1.wr_val == e2.wr_val,
         e1.mem_kind == e2.mem_kind, e1.mem_addr == e2.mem_addr, e1.mem_f3 == e2.mem_f3,
         e1.mem_val == e2.mem_val, e1.mem_rd == e2.mem_rd,
-        e1.jump == e2.jump, e1.target == e2.target)
+        e1.jump == e2.jump, e1.target == e2.target))
 
 
 def execute(e, regs, pc, ilen):
